@@ -15,5 +15,8 @@ IdsBig == {"b1", "b15", "b16"}
 IdsT == {"b1", "b3", "b5", "b9", "b10", "b12"}
 TruncConts == { C(1, 0, 0, "none", FALSE, 0), C(2, 0, 0, "mh", FALSE, 0), C(2, 59, 0, "none", FALSE, 0) }
 TruncRoots == { <<>>, <<"b1">>, <<"b3", "b4">> }
+IdsTBig == {"b21", "b1"}
+TruncContsBig == { C(1, 0, 0, "none", FALSE, 0), C(2, 0, 0, "mh", FALSE, 0) }
+TruncRootsBig == { <<"b1">> }
 ProbesStd == {"b1", "b2", "b3", "b4", "b5", "b6", "b7", "b8", "b9", "b10", "b12", "b17", "b19", "b20"}
 =============================================================================
